@@ -9,11 +9,22 @@
        CPython's set iteration order), nor on the order in which the candidates are listed, and it is mapped by an
        injective renumbering of the atoms.
 
+     - together with the Morgan model (MorganProofs): when the classes of `atoms_order` are discrete, the weights of the
+       renumbered and re-inserted molecule are the renumbered weights, and with them the writer model starts at the image
+       of the start atom and visits the children of every atom in the image of the original order (sections 7);
+     - under a renumbering that keeps the insertion orders (remap()) and any other tie-break priorities, with injective
+       weights: the BFS labels, every step and the result of the depth-first search (spanning tree `edges`, predecessor
+       table `visited`, ring-closure pairs `tokens`, their cycle numbers) and hence one whole component of `traverse` are
+       the renamed originals (sections 8-9).
+
    What is NOT proved (the goal is stated as [smiles_invariant_discrete_goal] below, not as a theorem): that the whole
-   written string and atom order are invariant - the BFS distances, the DFS bookkeeping, the closure numbering, the atom
-   / bond tokens and the stereo marks would have to be carried through the renumbering as well. *)
+   written string and atom order are invariant - flattening the tree into the token list, the closure numbering, the atom
+   / bond tokens and the stereo marks would have to be carried through the renumbering as well, and the BFS labels are
+   only shown equivariant for renumberings that keep the neighbour insertion order (independence of the BFS distances
+   from the neighbour order needs the shortest-path characterisation of the BFS, not proved). *)
 From Coq Require Import ZArith List String Bool Lia Permutation Sorting.Sorted.
-From Model Require Import PyBase Graph Morgan Writer.
+From Model Require Import PyBase PyHash Graph Morgan Writer.
+From Proofs Require Import MorganProofs.
 Import ListNotations.
 Open Scope Z_scope.
 
@@ -314,5 +325,396 @@ Proof.
   split; [intros x y Hx Hy; unfold exw_w; lia|].
   split; [intros x y Hx Hy; unfold exw_s; lia|].
   split; [intros n Hn; apply Hall in Hn; destruct Hn as [->|[->|[->| ->]]]; vm_compute; reflexivity|].
+  repeat split; vm_compute; reflexivity.
+Qed.
+
+(* ==================================================================================================== *)
+(* 7. Morgan model + writer keys: the first choices of the canonical traversal are structure-determined  *)
+Lemma filter_length_perm {A} (p : A -> bool) l l' : Permutation l l' -> List.length (filter p l) = List.length (filter p l').
+Proof. intros H. apply Permutation_length. apply filter_perm. exact H. Qed.
+
+Lemma group_of_perm w all all' x : Permutation all all' -> group_of w all x = group_of w all' x.
+Proof. intros H. unfold group_of. f_equal. f_equal. apply filter_length_perm. exact H. Qed.
+
+Lemma key_start_perm w tb o all all' x : Permutation all all' -> key_start w tb o all x = key_start w tb o all' x.
+Proof. intros H. unfold key_start. rewrite (group_of_perm w all all' x H). reflexivity. Qed.
+
+Lemma key_child_perm w tb o all all' seen x : Permutation all all' ->
+  key_child w tb o all seen x = key_child w tb o all' seen x.
+Proof. intros H. unfold key_child. rewrite (group_of_perm w all all' x H). reflexivity. Qed.
+
+Lemma sort_by_key_eq {A} (key key' : A -> list Z) l : (forall x, key x = key' x) -> sort_by key l = sort_by key' l.
+Proof. intros H. apply sort_by_ext. intros x y _ _. rewrite !H. reflexivity. Qed.
+
+(* discrete ranks: the weight function read off the result dict is injective on its keys *)
+Lemma lbl_inj_of_nodup (l : labels) : NoDup (keys l) -> NoDup (map snd l) -> inj_on (keys l) (lbl l).
+Proof.
+  intros Hk Hv x y Hx Hy He.
+  apply in_map_iff in Hx. destruct Hx as [[x' vx] [Ex Hx]]. cbn in Ex. subst x'.
+  apply in_map_iff in Hy. destruct Hy as [[y' vy] [Ey Hy]]. cbn in Ey. subst y'.
+  unfold lbl in He. rewrite (zget_In l x vx Hk Hx), (zget_In l y vy Hk Hy) in He. subst vy.
+  clear Hk. induction l as [|[k v] l IH]; [destruct Hx|].
+  cbn [map snd] in Hv. inversion Hv as [|? ? Hn Hv']; subst.
+  destruct Hx as [Hx|Hx], Hy as [Hy|Hy].
+  - congruence.
+  - injection Hx as -> ->. exfalso. apply Hn. apply in_map_iff. exists (y, vx). split; [reflexivity | exact Hy].
+  - injection Hy as -> ->. exfalso. apply Hn. apply in_map_iff. exists (x, vx). split; [reflexivity | exact Hx].
+  - apply IH; assumption.
+Qed.
+
+
+(* looking a row up in the same dict of dicts built in another insertion order *)
+Lemma zget_nb_perm {B} (adj mid : list (Z * list (Z * B))) k row : Forall2 nb_perm adj mid -> zget adj k = Some row ->
+  exists row', zget mid k = Some row' /\ Permutation row row'.
+Proof.
+  intros Hf. induction Hf as [|[n ms] [n' ms'] adj mid [Hn Hms] _ IH]; cbn [zget]; [discriminate|].
+  cbn [fst snd] in Hn, Hms. subst n'. destruct (k =? n).
+  - intros [= <-]. exists ms'. split; [reflexivity | exact Hms].
+  - exact IH.
+Qed.
+
+Lemma keys_nb_perm {B} (adj mid : list (Z * list (Z * B))) : Forall2 nb_perm adj mid -> keys mid = keys adj.
+Proof.
+  intros Hf. induction Hf as [|[n ms] [n' ms'] adj mid [Hn _] _ IH]; [reflexivity|].
+  cbn [keys map fst] in *. cbn [fst] in Hn. subst n'. f_equal. exact IH.
+Qed.
+
+Lemma zget_adj_perm {B} (adj adj' : list (Z * list (Z * B))) k row : adj_perm adj adj' -> NoDup (keys adj) ->
+  zget adj k = Some row -> exists row', zget adj' k = Some row' /\ Permutation row row'.
+Proof.
+  intros [mid [Hf Hp]] Hn Hk. destruct (zget_nb_perm adj mid k row Hf Hk) as [row' [E P]].
+  exists row'. split; [|exact P]. rewrite <- (zget_perm mid adj' k); [exact E | rewrite (keys_nb_perm adj mid Hf); exact Hn | exact Hp].
+Qed.
+
+Lemma zget_ren_map {V W} (f : V -> W) s (d : list (Z * V)) n D : inj_on D s -> incl (keys d) D -> In n D ->
+  zget (map (fun kv => (s (fst kv), f (snd kv))) d) (s n) = option_map f (zget d n).
+Proof.
+  intros Hs Hd Hn. induction d as [|[k v] d IH]; cbn; [reflexivity|].
+  assert (In k D) as Hk by (apply Hd; left; reflexivity).
+  assert (incl (keys d) D) as Hd' by (intros x Hx; apply Hd; right; exact Hx).
+  destruct (Z.eqb_spec n k) as [->|Hne].
+  - rewrite Z.eqb_refl. reflexivity.
+  - destruct (Z.eqb_spec (s n) (s k)) as [E|_]; [exfalso; apply Hne; apply Hs; assumption | apply IH; exact Hd'].
+Qed.
+
+Lemma zget_some_of_key {V} (d : list (Z * V)) k : In k (keys d) -> exists v, zget d k = Some v.
+Proof.
+  intros H. destruct (zget d k) as [v|] eqn:E; [exists v; reflexivity|].
+  apply zget_None_iff in E. contradiction.
+Qed.
+
+Section CanonicalFirstChoices.
+  Variable h : list Z -> Z.
+  Variable ring ring' : Z -> bool.
+  Variable g g' : mol.
+  Variable s : Z -> Z.
+  Variable l : labels.
+  Hypothesis Hwf : wf_mol g = true.
+  Hypothesis Hs : inj_on (ids g) s.
+  Hypothesis Hr : forall n, In n (ids g) -> ring' (s n) = ring n.
+  Hypothesis Hp : mol_perm (ren_mol s g) g'.
+  Hypothesis Hl : atoms_order h ring g = Ok l.
+  Hypothesis Hd : NoDup (map snd l).
+
+  Let l' := ren_labels s l.
+
+  Lemma Hkeys : Permutation (keys l) (ids g).
+  Proof. destruct (atoms_order_total h ring g Hwf) as [l0 [E P]]. rewrite Hl in E. injection E as <-. exact P. Qed.
+
+  Lemma Hnd : NoDup (keys l).
+  Proof.
+    destruct (wf_mol_inv g Hwf) as [H1 [H2 _]].
+    eapply atoms_order_keys_nodup; [exact H2 | rewrite <- H1; exact H2 | exact Hl].
+  Qed.
+
+  Lemma w_inj_ids : inj_on (ids g) (lbl l).
+  Proof.
+    intros x y Hx Hy. apply (lbl_inj_of_nodup l Hnd Hd); eapply Permutation_in; try (apply Permutation_sym; apply Hkeys); assumption.
+  Qed.
+
+  Lemma w_ren_ids n : In n (ids g) -> lbl l' (s n) = lbl l n.
+  Proof.
+    intros Hn. apply (lbl_ren s l n (ids g) Hs); [|exact Hn].
+    intros x Hx. eapply Permutation_in; [apply Hkeys | exact Hx].
+  Qed.
+
+  Lemma ids_perm' : Permutation (map s (ids g)) (ids g').
+  Proof. destruct Hp as [Ha _]. rewrite <- ids_ren_mol. apply keys_perm. exact Ha. Qed.
+
+  (* the weights of the renumbered, re-inserted molecule are the renumbered weights ... *)
+  Theorem canonical_weights_equivariant : atoms_order h ring' g' = Ok l'.
+  Proof. apply (morgan_rank_order_equivariant h ring ring' g s g' l Hwf Hs Hr Hp Hl Hd). Qed.
+
+  (* ... and with them the writer model starts at the image of the start atom, whatever the tie-break priorities *)
+  Theorem canonical_start_structure_only tb tb' o :
+    min_by (key_start (lbl l') tb' o (ids g')) (ids g') = option_map s (min_by (key_start (lbl l) tb o (ids g)) (ids g)).
+  Proof.
+    unfold min_by.
+    rewrite (sort_by_key_eq (key_start (lbl l') tb' o (ids g')) (key_start (lbl l') tb' o (map s (ids g))))
+      by (intros x; apply key_start_perm; apply Permutation_sym; exact ids_perm').
+    fold (min_by (key_start (lbl l') tb' o (map s (ids g))) (ids g')).
+    fold (min_by (key_start (lbl l) tb o (ids g)) (ids g)).
+    apply (start_atom_equivariant (lbl l) (lbl l') o (ids g) s w_inj_ids w_ren_ids tb tb' (ids g) (ids g')).
+    - apply incl_refl.
+    - exact ids_perm'.
+  Qed.
+
+  (* the children of any atom n are visited in the image of the original order, given BFS labels that correspond *)
+  Theorem canonical_children_structure_only tb tb' o seen seen' n :
+    In n (ids g) -> (forall x, In x (ids g) -> zget seen' (s x) = zget seen x) ->
+    sort_by (key_child (lbl l') tb' o (ids g') seen') (nbr_ids g' (s n)) =
+    map s (sort_by (key_child (lbl l) tb o (ids g) seen) (nbr_ids g n)).
+  Proof.
+    intros Hn Hseen.
+    destruct (wf_mol_inv g Hwf) as [H1 [H2 H3]].
+    assert (exists row, zget (m_adj g) n = Some row) as [row Hrow] by (apply zget_some_of_key; rewrite <- H1; exact Hn).
+    assert (incl (nbr_ids g n) (ids g)) as Hincl.
+    { unfold nbr_ids, nbrs. rewrite Hrow. apply (H3 n row). apply zget_Some_In. exact Hrow. }
+    assert (Permutation (map s (nbr_ids g n)) (nbr_ids g' (s n))) as Hperm.
+    { assert (zget (m_adj (ren_mol s g)) (s n) = Some (map (fun mb => (s (fst mb), snd mb)) row)) as E.
+      { unfold ren_mol, ren_adj. cbn [m_adj].
+        rewrite (zget_ren_map (fun r : list (Z * bond) => map (fun mb => (s (fst mb), snd mb)) r) s (m_adj g) n (ids g) Hs);
+          [rewrite Hrow; reflexivity | rewrite H1; apply incl_refl | exact Hn]. }
+      destruct Hp as [_ Hadj].
+      assert (NoDup (keys (m_adj (ren_mol s g)))) as Hnd' by (rewrite keys_adj_ren_mol, <- H1; apply NoDup_map_inj; assumption).
+      destruct (zget_adj_perm _ _ (s n) _ Hadj Hnd' E) as [row' [E' P]].
+      unfold nbr_ids, nbrs. rewrite Hrow, E'. unfold keys.
+      eapply Permutation_trans; [|apply Permutation_map; exact P].
+      rewrite !map_map. cbn [fst]. apply Permutation_refl. }
+    rewrite (sort_by_key_eq (key_child (lbl l') tb' o (ids g') seen') (key_child (lbl l') tb' o (map s (ids g)) seen'))
+      by (intros x; apply key_child_perm; apply Permutation_sym; exact ids_perm').
+    apply (children_order_equivariant (lbl l) (lbl l') o (ids g) s w_inj_ids w_ren_ids tb tb' seen seen' (nbr_ids g n) (nbr_ids g' (s n)));
+      assumption.
+  Qed.
+End CanonicalFirstChoices.
+
+(* the two statements of section 7 about the start atom in one *)
+Theorem canonical_start_full (h : list Z -> Z) (ring ring' : Z -> bool) (g g' : mol) (s : Z -> Z) (l : labels) :
+  wf_mol g = true -> inj_on (ids g) s -> (forall n, In n (ids g) -> ring' (s n) = ring n) -> mol_perm (ren_mol s g) g' ->
+  atoms_order h ring g = Ok l -> NoDup (map snd l) ->
+  atoms_order h ring' g' = Ok (ren_labels s l) /\
+  forall (tb tb' : Z -> Z) (o : opts),
+    min_by (key_start (lbl (ren_labels s l)) tb' o (ids g')) (ids g') = option_map s (min_by (key_start (lbl l) tb o (ids g)) (ids g)).
+Proof.
+  intros Hwf Hs Hr Hp Hl Hd. split.
+  - exact (canonical_weights_equivariant h ring ring' g g' s l Hwf Hs Hr Hp Hl Hd).
+  - exact (canonical_start_structure_only h ring g g' s l Hwf Hs Hp Hl Hd).
+Qed.
+
+(* ==================================================================================================== *)
+(* 8. the depth-first search of the writer under a renumbering (remap): same insertion orders, other numbers, other
+      tie-break priorities.  s is injective on all of Z here (every finite renumbering extends to such a map). *)
+Definition ren_vis (s : Z -> Z) (d : list (Z * list Z)) : list (Z * list Z) := map (fun kv => (s (fst kv), map s (snd kv))) d.
+Definition ren_pairs (s : Z -> Z) (l : list (Z * Z)) : list (Z * Z) := map (fun p => (s (fst p), s (snd p))) l.
+Definition ren_tokens (s : Z -> Z) (d : list (Z * list (Z * Z))) : list (Z * list (Z * Z)) :=
+  map (fun kv => (s (fst kv), map (fun pc => (s (fst pc), snd pc)) (snd kv))) d.
+Definition ren_stack (s : Z -> Z) (st : list (Z * Z * list Z)) : list (Z * Z * list Z) :=
+  map (fun e => (s (fst (fst e)), snd (fst e), map s (snd e))) st.
+Definition ren_dfs (s : Z -> Z) (st : dfs_st) : dfs_st :=
+  mkDfs (ren_stack s (ds_stack st)) (ren_vis s (ds_visited st)) (ren_pairs s (ds_disc st)) (ren_vis s (ds_edges st))
+        (ren_tokens s (ds_tokens st)) (ds_cycle st).
+
+Section GlobalRenaming.
+  Variable s : Z -> Z.
+  Hypothesis s_inj : forall x y, s x = s y -> x = y.
+
+  Lemma seqb x y : (s x =? s y) = (x =? y).
+  Proof.
+    destruct (Z.eqb_spec x y) as [->|Hne]; [apply Z.eqb_refl|].
+    apply Z.eqb_neq. intros E. apply Hne. apply s_inj. exact E.
+  Qed.
+
+  Lemma zget_renG {V W} (f : V -> W) (d : list (Z * V)) k :
+    zget (map (fun kv => (s (fst kv), f (snd kv))) d) (s k) = option_map f (zget d k).
+  Proof.
+    induction d as [|[k' v] d IH]; cbn; [reflexivity|]. rewrite seqb. destruct (k =? k'); [reflexivity | exact IH].
+  Qed.
+
+  Lemma zhas_renG {V W} (f : V -> W) (d : list (Z * V)) k : zhas (map (fun kv => (s (fst kv), f (snd kv))) d) (s k) = zhas d k.
+  Proof. unfold zhas. rewrite zget_renG. destruct (zget d k); reflexivity. Qed.
+
+  Lemma zapp_renG {V W} (f : V -> W) (d : list (Z * list V)) k x :
+    zapp (map (fun kv => (s (fst kv), map f (snd kv))) d) (s k) (f x) = map (fun kv => (s (fst kv), map f (snd kv))) (zapp d k x).
+  Proof.
+    induction d as [|[k' v] d IH]; cbn; [reflexivity|]. rewrite seqb. destruct (k =? k'); cbn.
+    - rewrite map_app. reflexivity.
+    - rewrite IH. reflexivity.
+  Qed.
+
+  Lemma zset_renG {V} (d : list (Z * V)) k v :
+    zset (map (fun kv => (s (fst kv), snd kv)) d) (s k) v = map (fun kv => (s (fst kv), snd kv)) (zset d k v).
+  Proof.
+    induction d as [|[k' v'] d IH]; cbn; [reflexivity|]. rewrite seqb. destruct (k =? k'); cbn; [reflexivity | rewrite IH; reflexivity].
+  Qed.
+
+  Lemma pair_mem_renG a b l : pair_mem (s a, s b) (ren_pairs s l) = pair_mem (a, b) l.
+  Proof.
+    unfold pair_mem, ren_pairs. induction l as [|[x y] l IH]; cbn; [reflexivity|].
+    unfold pair_eqbZ at 1 3. cbn [fst snd]. rewrite !seqb, IH. reflexivity.
+  Qed.
+
+  Lemma filter_neq_renG p l : filter (fun m => negb (m =? s p)) (map s l) = map s (filter (fun m => negb (m =? p)) l).
+  Proof.
+    induction l as [|x l IH]; cbn; [reflexivity|]. rewrite seqb. destruct (x =? p); cbn; rewrite IH; reflexivity.
+  Qed.
+
+  Lemma nbr_ids_renG g n : nbr_ids (ren_mol s g) (s n) = map s (nbr_ids g n).
+  Proof.
+    unfold nbr_ids, nbrs, ren_mol, ren_adj. cbn [m_adj].
+    rewrite (zget_renG (fun r : list (Z * bond) => map (fun mb => (s (fst mb), snd mb)) r)).
+    destruct (zget (m_adj g) n); cbn; [|reflexivity]. unfold keys. rewrite !map_map. reflexivity.
+  Qed.
+
+  Section Dfs.
+    Variable g : mol.
+    Variable all : list Z.
+    Variable key key' : Z -> list Z.
+    Hypothesis Hnb : forall n, incl (nbr_ids g n) all.
+    Hypothesis Hsort : forall l, incl l all -> sort_by key' (map s l) = map s (sort_by key l).
+
+    Lemma dfs_step_ren st : dfs_step (ren_mol s g) key' (ren_dfs s st) = option_map (ren_dfs s) (dfs_step g key st).
+    Proof.
+      destruct st as [stack vis disc edges tokens cyc]. unfold dfs_step, ren_dfs. cbn [ds_stack ds_visited ds_disc ds_edges ds_tokens ds_cycle].
+      destruct stack as [|[[parent depth] children] rest]; [reflexivity|].
+      cbn [ren_stack map fst snd]. destruct children as [|child children']; [reflexivity|].
+      cbn [map]. unfold ren_vis at 1. rewrite (zhas_renG (map s)). destruct (zhas vis child); cbn [negb].
+      - (* already visited *)
+        rewrite pair_mem_renG. destruct (pair_mem (child, parent) disc); cbn [negb option_map]; [reflexivity|].
+        f_equal. unfold ren_dfs. cbn [ds_stack ds_visited ds_disc ds_edges ds_tokens ds_cycle]. f_equal.
+        unfold ren_tokens. set (f := fun pc : Z * Z => (s (fst pc), snd pc)).
+        change (s child, cyc + 1) with (f (child, cyc + 1)). change (s parent, cyc + 1) with (f (parent, cyc + 1)).
+        rewrite !zapp_renG. reflexivity.
+      - (* a new atom *)
+        cbn [option_map]. f_equal. unfold ren_dfs. cbn [ds_stack ds_visited ds_disc ds_edges ds_tokens ds_cycle]. f_equal.
+        + destruct (1 <? depth); [|reflexivity].
+          rewrite nbr_ids_renG, filter_neq_renG.
+          assert (incl (filter (fun m => negb (m =? parent)) (nbr_ids g child)) all) as Hi
+            by (intros x Hx; apply filter_In in Hx; apply (Hnb child); apply Hx).
+          destruct (filter (fun m => negb (m =? parent)) (nbr_ids g child)) as [|f0 fr] eqn:E; [reflexivity|].
+          cbn [map]. change (s f0 :: map s fr) with (map s (f0 :: fr)). rewrite (Hsort _ Hi). reflexivity.
+        + unfold ren_vis. rewrite map_app. reflexivity.
+        + unfold ren_vis. rewrite <- (zapp_renG s edges parent child). reflexivity.
+    Qed.
+
+    Lemma iter_opt_ren {S} (f : S -> S) (step step' : S -> option S) :
+      (forall x, step' (f x) = option_map f (step x)) ->
+      forall fuel x, iter_opt fuel step' (f x) = option_map f (iter_opt fuel step x).
+    Proof.
+      intros H fuel. induction fuel as [|fuel IH]; intros x; cbn; [reflexivity|].
+      rewrite H. destruct (step x) as [x'|]; cbn; [apply IH | reflexivity].
+    Qed.
+
+    (* the whole `while stack:` loop *)
+    Theorem dfs_ren fuel st :
+      iter_opt fuel (dfs_step (ren_mol s g) key') (ren_dfs s st) = option_map (ren_dfs s) (iter_opt fuel (dfs_step g key) st).
+    Proof. apply iter_opt_ren. exact dfs_step_ren. Qed.
+  End Dfs.
+
+  (* the BFS labels *)
+  Lemma bfs_ren g fuel : forall queue seen,
+    bfs (ren_mol s g) fuel (ren_labels s queue) (ren_labels s seen) = ren_labels s (bfs g fuel queue seen).
+  Proof.
+    induction fuel as [|fuel IH]; intros queue seen; cbn [bfs]; [reflexivity|].
+    destruct queue as [|[n d] q]; [reflexivity|]. cbn [ren_labels map fst snd].
+    rewrite nbr_ids_renG.
+    assert (filter (fun m => negb (zhas (ren_labels s seen) m)) (map s (nbr_ids g n)) =
+            map s (filter (fun m => negb (zhas seen m)) (nbr_ids g n))) as ->.
+    { induction (nbr_ids g n) as [|x l IHl]; cbn; [reflexivity|].
+      unfold ren_labels at 1. rewrite (zhas_renG (fun v : Z => v)).
+      destruct (zhas seen x); cbn; fold (ren_labels s seen); rewrite IHl; reflexivity. }
+    rewrite <- IH. f_equal.
+    - unfold ren_labels. rewrite map_app, !map_map. reflexivity.
+    - unfold ren_labels. rewrite map_app, !map_map. reflexivity.
+  Qed.
+End GlobalRenaming.
+
+(* ==================================================================================================== *)
+(* 9. one component of the traversal (start atom, BFS labels, DFS tree with ring-closure pairs) under renumbering *)
+Definition ren_traversal (s : Z -> Z) (t : traversal) : traversal :=
+  mkTr (s (tr_start t)) (ren_labels s (tr_seen t)) (ren_dfs s (tr_dfs t)).
+Definition ren_tres (s : Z -> Z) (r : pyres traversal) : pyres traversal :=
+  match r with Ok t => Ok (ren_traversal s t) | Err e => Err e end.
+
+Lemma n_atoms_ren s g : n_atoms (ren_mol s g) = n_atoms g.
+Proof. unfold n_atoms. rewrite ids_ren_mol. apply map_length. Qed.
+
+Lemma n_dbonds_ren s g : n_dbonds (ren_mol s g) = n_dbonds g.
+Proof.
+  unfold n_dbonds, ren_mol, ren_adj. cbn [m_adj]. induction (m_adj g) as [|[n row] adj IH]; cbn; [reflexivity|].
+  rewrite !app_length, map_length. f_equal. exact IH.
+Qed.
+
+Lemma nbr_ids_incl g : wf_mol g = true -> forall n, incl (nbr_ids g n) (ids g).
+Proof.
+  intros Hwf n. destruct (wf_mol_inv g Hwf) as [_ [_ H3]]. unfold nbr_ids, nbrs.
+  destruct (zget (m_adj g) n) as [row|] eqn:E; [|intros x []].
+  apply (H3 n row). apply zget_Some_In. exact E.
+Qed.
+
+Section TraverseRen.
+  Variable g : mol.
+  Variable s : Z -> Z.
+  Variable w w' tb tb' : Z -> Z.
+  Variable o : opts.
+  Hypothesis Hwf : wf_mol g = true.
+  Hypothesis s_inj : forall x y, s x = s y -> x = y.
+  Hypothesis w_inj : inj_on (ids g) w.
+  Hypothesis w_ren : forall n, In n (ids g) -> w' (s n) = w n.
+
+  Lemma seen_ren seen n : zget (ren_labels s seen) (s n) = zget seen n.
+  Proof. unfold ren_labels. rewrite (zget_renG s s_inj (fun v : Z => v)). destruct (zget seen n); reflexivity. Qed.
+
+  Theorem traverse_ren st st' :
+    incl (ws_atoms st) (ids g) -> Permutation (map s (ws_atoms st)) (ws_atoms st') ->
+    ws_seen st' = ren_labels s (ws_seen st) -> ws_cycle st' = ws_cycle st ->
+    traverse (ren_mol s g) w' tb' o (map s (ids g)) st' = ren_tres s (traverse g w tb o (ids g) st).
+  Proof.
+    intros Hi Hp Hseen Hcyc. unfold traverse.
+    rewrite (start_atom_equivariant w w' o (ids g) s w_inj w_ren tb tb' (ws_atoms st) (ws_atoms st') Hi Hp).
+    destruct (min_by (key_start w tb o (ids g)) (ws_atoms st)) as [start|]; cbn [option_map ren_tres]; [|reflexivity].
+    set (seen := if o_random o then ws_seen st else bfs g (S (n_atoms g)) [(start, 1)] (zset (ws_seen st) start 0)).
+    assert ((if o_random o then ws_seen st'
+             else bfs (ren_mol s g) (S (n_atoms (ren_mol s g))) [(s start, 1)] (zset (ws_seen st') (s start) 0)) = ren_labels s seen) as ->.
+    { unfold seen. rewrite Hseen. destruct (o_random o); [reflexivity|].
+      rewrite n_atoms_ren. unfold ren_labels at 1. rewrite (zset_renG s s_inj). fold (ren_labels s (zset (ws_seen st) start 0)).
+      change [(s start, 1)] with (ren_labels s [(start, 1)]). apply bfs_ren. exact s_inj. }
+    assert (forall l, incl l (ids g) ->
+              sort_by (key_child w' tb' o (map s (ids g)) (ren_labels s seen)) (map s l) = map s (sort_by (key_child w tb o (ids g) seen) l)) as Hsort.
+    { intros l Hl. apply (children_order_equivariant w w' o (ids g) s w_inj w_ren tb tb' seen (ren_labels s seen) l (map s l) Hl (Permutation_refl _)).
+      intros n _. apply seen_ren. }
+    assert (Z.of_nat (List.length (ws_atoms st')) = Z.of_nat (List.length (ws_atoms st))) as ->.
+    { f_equal. rewrite <- (Permutation_length Hp). apply map_length. }
+    rewrite nbr_ids_renG by exact s_inj. rewrite (Hsort _ (nbr_ids_incl g Hwf start)). rewrite Hcyc.
+    unfold dfs_fuel. rewrite n_atoms_ren, n_dbonds_ren.
+    pose proof (dfs_ren s s_inj g (ids g) (key_child w tb o (ids g) seen) (key_child w' tb' o (map s (ids g)) (ren_labels s seen))
+                        (nbr_ids_incl g Hwf) Hsort (n_dbonds g + 2 * n_atoms g + 2)
+                        (mkDfs [(start, Z.of_nat (List.length (ws_atoms st)), sort_by (key_child w tb o (ids g) seen) (nbr_ids g start))]
+                               [(start, [])] [] [] [] (ws_cycle st))) as Hd.
+    unfold ren_dfs at 1 in Hd. cbn [ds_stack ds_visited ds_disc ds_edges ds_tokens ds_cycle ren_stack ren_vis ren_pairs ren_tokens map fst snd] in Hd.
+    rewrite Hd.
+    destruct (iter_opt (n_dbonds g + 2 * n_atoms g + 2) (dfs_step g (key_child w tb o (ids g) seen)) _) as [d|]; reflexivity.
+  Qed.
+End TraverseRen.
+
+(* ==================================================================================================== *)
+(* 10. non-vacuity: ethanol (MorganProofs.ex_g) renumbered n -> 10 - n; the weights are the ranks the Morgan model computes
+       with the CPython hash; other tie-break priorities on the two sides *)
+Definition exw_l : labels := [(1, 1); (3, 2); (2, 3)].
+Definition exw_st : wstate := mkW [1; 2; 3] [] 0 [] [] [] [] [].
+Definition exw_st' : wstate := mkW [8; 9; 7] [] 0 [] [] [] [] [].
+
+Theorem traverse_example :
+  wf_mol ex_g = true /\ (forall x y, ex_s x = ex_s y -> x = y) /\ inj_on (ids ex_g) (lbl exw_l) /\
+  (forall n, In n (ids ex_g) -> lbl (ren_labels ex_s exw_l) (ex_s n) = lbl exw_l n) /\
+  Morgan.atoms_order PyHash.hash_ztuple ex_ring ex_g = Ok exw_l /\
+  traverse ex_g (lbl exw_l) (fun n => n) default_opts (ids ex_g) exw_st =
+    Ok (mkTr 1 [(1, 0); (2, 1); (3, 2)] (mkDfs [] [(1, []); (2, [1]); (3, [2])] [] [(1, [2]); (2, [3])] [] 0)) /\
+  traverse (ren_mol ex_s ex_g) (lbl (ren_labels ex_s exw_l)) (fun n => - n) default_opts (map ex_s (ids ex_g)) exw_st' =
+    Ok (mkTr 9 [(9, 0); (8, 1); (7, 2)] (mkDfs [] [(9, []); (8, [9]); (7, [8])] [] [(9, [8]); (8, [7])] [] 0)).
+Proof.
+  split; [vm_compute; reflexivity|].
+  split; [intros x y; unfold ex_s; lia|].
+  split; [intros x y Hx Hy; cbn in Hx, Hy; intuition (subst; vm_compute in *; congruence)|].
+  split; [intros n Hn; cbn in Hn; intuition (subst; vm_compute; reflexivity)|].
   repeat split; vm_compute; reflexivity.
 Qed.
